@@ -495,8 +495,8 @@ def ob_godambe_assembly():
         if ok:
             for t, b in zip(grad_calls, (b1, b2)):
                 a = t.args[3]
-                ok = ok and t.args[1] is p0 and t.args[2] is eps and isinstance(a, VList) and isinstance(a.items[0], Tm) and a.items[0].op == 'call:class:dadi.Spectrum_mod.Spectrum' and a.items[0].args[0] is b
-        out.append(struct(oid + '.grad-calls', ok, 'one get_grad(func, p0, eps, args=[Spectrum(boot_i), theta_adjust_i]) per bootstrap, in order', fn))
+                ok = ok and t.args[1] is p0 and t.args[2] is eps and isinstance(a, VList) and isinstance(a.items[0], Tm) and a.items[0].op == 'call:class:dadi.Spectrum_mod.Spectrum' and a.items[0].args[0] is b and vrepr(a.items[0]) == 'call:class:dadi.Spectrum_mod.Spectrum(%s)' % vrepr(b)
+        out.append(struct(oid + '.grad-calls', ok, 'one get_grad(func, p0, eps, args=[Spectrum(boot_i), theta_adjust_i]) per bootstrap, in order; each bootstrap is wrapped as it is (its own mask: no mask, data or flags of the original data handed to the constructor)', fn))
         g, h, J, cU = p.value
         out.append(struct(oid + '.H', isinstance(h, Tm) and h.op == 'neg' and h.args[0] is hess_calls[0], 'H = -get_hess(...): %s' % vrepr(h)[:100], fn))
         # J = (0 + outer(g1,g1) + outer(g2,g2))/2 ; cU = (0 + g1 + g2)/2 ; G = dot(dot(H, inv(J)), H)
@@ -551,7 +551,7 @@ def ob_godambe_assembly():
                 for t, b, a_ in zip(gc, (b1, b2), adj):
                     al = t.args[3]
                     items = al.items if isinstance(al, VList) else []
-                    good = len(items) == 2 and isinstance(items[0], Tm) and items[0].op == 'call:class:dadi.Spectrum_mod.Spectrum' and items[0].args[0] is b and items[1] is a_ and t.args[2] is eps
+                    good = len(items) == 2 and isinstance(items[0], Tm) and items[0].op == 'call:class:dadi.Spectrum_mod.Spectrum' and items[0].args[0] is b and vrepr(items[0]) == 'call:class:dadi.Spectrum_mod.Spectrum(%s)' % vrepr(b) and items[1] is a_ and t.args[2] is eps
                     if not good:
                         okk = False
                         detail = 'get_grad args for %s: %s' % (vrepr(b), vrepr(al)[:160])
